@@ -234,6 +234,32 @@ func c29sRun(x *mc.Exec, sc c29sScenario, rep *mc.Report) mc.Verdict {
 	if mon.viol != "" {
 		return mc.Verdict{Violation: sc.name + ": " + mon.viol, Sig: mon.sig, Detail: map[string]any{"scenario": sc.name, "log": log}}
 	}
+	if res.Deadlock && !res.StepCap && !res.Horizon {
+		// A request heavier than the size in force waits until its context ends: that is the semaphore's
+		// documented behaviour, not a lost wake-up (reached in "setsize down cancel": SetSize(1) before the
+		// plain Acquire(2) of T0). Such an execution is an outcome of its own, not a violation.
+		legit := true
+		for _, b := range res.Blocked {
+			name := b
+			if i := strings.Index(b, ":"); i >= 0 {
+				name = b[:i]
+			}
+			if name == "main" {
+				continue
+			}
+			op, ok := mon.curOp[name]
+			if !ok || !(op.kind == c29sAcq || op.kind == c29sAcqCtx) || op.n <= mon.s.size {
+				legit = false
+			}
+		}
+		if legit {
+			key := sc.name + "|" + strings.Join(log, ",") + "|request-heavier-than-size-parked"
+			rep.State(key)
+			rep.Outcome(key)
+			rep.Nontrivial(key)
+			return mc.Verdict{}
+		}
+	}
 	if res.Deadlock || res.StepCap || res.Horizon {
 		return mc.Verdict{Violation: fmt.Sprintf("%s: a request waits forever (%s); log %v", sc.name, strings.Join(res.Blocked, "; "), log), Sig: "C29:sem-request-waits-forever", Detail: map[string]any{"scenario": sc.name, "blocked": res.Blocked}}
 	}
